@@ -120,7 +120,8 @@ def run(pid, tier, seed):
         # the same functions as format() uses them: %a %A %j %u %w %U %W on instants up to the int64 limits
         from checks import format as fmtcheck
         wf = [b"%a", b"%A", b"%j", b"%u", b"%w", b"%U", b"%W", b"%Y %a %j", b"%A, day %j, week %U/%W, weekday %u/%w of %Y-%m-%d", b"%G-W%V-%u %a",
-              b"%W %U", b"%U %W", b"%W|%U|%W|%U", b"%Y-W%W / %Y-U%U", b"%w %u %w", b"%U%W%U"]
+              b"%W %U", b"%U %W", b"%W|%U|%W|%U", b"%Y-W%W / %Y-U%U", b"%w %u %w", b"%U%W%U",
+              b"%^a", b"%^A", b"%-j", b"%_j", b"%^a %-j", b"%-u|%_w", b"%5a %010j", b"%Ou %OU %OW %Ow"]
         fobs = fmtcheck.observe_formats(pid, verdict, work, wf, tier, seed, "FormatWeekday")
         events += fobs[0]
         st += fobs[1]
